@@ -111,7 +111,8 @@ impl DecodeBuffer {
         requires old(self).inv(), fill_length <= u32::MAX,
         ensures
             final(self).inv(),
-            r is Ok ==> final(self).view().len() == old(self).view().len() + fill_length && final(read).avail() == old(read).avail() - fill_length,
+            r is Ok ==> final(self).view().len() == old(self).view().len() + fill_length && final(read).avail() == old(read).avail() - fill_length
+                && old(read).avail() >= fill_length,
             r is Err ==> final(self).view() == old(self).view(),
     { unimplemented!() }
 }
@@ -165,6 +166,7 @@ pub fn execute_sequences(scratch: &mut DecoderScratch) -> (r: Result<(), Execute
     ensures
         final(scratch).buffer.inv(), final(scratch).huf == old(scratch).huf, final(scratch).fse == old(scratch).fse,
         r is Ok ==> final(scratch).buffer.view().len() - old(scratch).buffer.view().len() <= MAX_BLOCK_SIZE,
+        final(scratch).buffer.view().len() >= old(scratch).buffer.view().len(),     // Q3 proves both bounds on every path
 { unimplemented!() }
 
 pub enum DecompressBlockError {
@@ -227,7 +229,8 @@ impl BlockDecoder {
             // C05: at most one block's worth of output
             r is Ok ==> final(workspace).buffer.view().len() - old(workspace).buffer.view().len() <= MAX_BLOCK_SIZE,
             // C10: exactly content_size bytes are taken from the source
-            r is Ok ==> final(source).avail() == old(source).avail() - header.content_size,
+            r is Ok ==> final(source).avail() == old(source).avail() - header.content_size && old(source).avail() >= header.content_size
+                && final(workspace).buffer.view().len() >= old(workspace).buffer.view().len(),
 {
         workspace
             .block_content_buffer
@@ -314,6 +317,78 @@ impl BlockDecoder {
         }
 
         Ok(())
+    }
+
+    pub fn decode_block_content<R: Read>(
+        &mut self,
+        header: &BlockHeader,
+        workspace: &mut DecoderScratch, //reuse this as often as possible. Not only if the trees are reused but also reuse the allocations when building new trees
+        source: &mut R,
+    ) -> (r: Result<u64, DecodeBlockContentError>)
+        requires
+            old(workspace).wf(), header.from_h1(),
+        ensures
+            final(workspace).buffer.inv(),
+            r matches Ok(n) ==> final(workspace).wf() && old(source).avail() >= n
+                && final(workspace).buffer.view().len() >= old(workspace).buffer.view().len()
+                // C10: Ok(n) = exactly n bytes were taken from the source: 1 for RLE, the content size otherwise
+                && final(source).avail() == old(source).avail() - n
+                && n == (if header.block_type is RLE { 1 } else { header.content_size as int })
+                // C05: at most one block's worth of output
+                && final(workspace).buffer.view().len() - old(workspace).buffer.view().len() <= MAX_BLOCK_SIZE
+                // C01: raw and RLE blocks regenerate exactly decompressed_size bytes
+                && (!(header.block_type is Compressed) ==> final(workspace).buffer.view().len() - old(workspace).buffer.view().len() == header.decompressed_size),
+{
+        match self.internal_state {
+            DecoderState::ReadyToDecodeNextBody => { /* Happy :) */ }
+            DecoderState::Failed => return Err(DecodeBlockContentError::DecoderStateIsFailed),
+            DecoderState::ReadyToDecodeNextHeader => {
+                return Err(DecodeBlockContentError::ExpectedHeaderOfPreviousBlock)
+            }
+        }
+
+        let block_type = header.block_type;
+        match block_type {
+            BlockType::RLE => {
+                let mut buf = [0u8; 1];
+                source.read_exact(&mut buf[..]).map_err(|err| {
+                    DecodeBlockContentError::ReadError {
+                        step: block_type,
+                        source: err,
+                    }
+                })?;
+                workspace
+                    .buffer
+                    .extend_and_fill(buf[0], header.decompressed_size as usize);
+
+                self.internal_state = DecoderState::ReadyToDecodeNextHeader;
+
+                Ok(1)
+            }
+            BlockType::Raw => {
+                workspace
+                    .buffer
+                    .extend_from_reader(source, header.decompressed_size as usize)
+                    .map_err(|err| DecodeBlockContentError::ReadError {
+                        step: block_type,
+                        source: err,
+                    })?;
+
+                self.internal_state = DecoderState::ReadyToDecodeNextHeader;
+                Ok(u64::from(header.decompressed_size))
+            }
+
+            BlockType::Reserved => {
+                vpanic();
+            }
+
+            BlockType::Compressed => {
+                self.decompress_block(header, workspace, source)?;
+
+                self.internal_state = DecoderState::ReadyToDecodeNextHeader;
+                Ok(u64::from(header.content_size))
+            }
+        }
     }
 
 }
